@@ -306,21 +306,24 @@ def tokenize_deb822_file(sequence: Iterable[Union[str, bytes]]) -> Iterable[Deb8
                 x = x.decode('utf-8')
             yield x
 
+    def _with_newlines(s: Iterable[str]) -> Iterable[str]:
+        for x in s:
+            if x.endswith("\n"):
+                raise ValueError("Input is inconsistent with its line endings! Lines must "
+                                 "consistently be *with* or *without* line endings")
+            yield x + "\n"
+
     text_stream = BufferingIterator(_as_str(sequence))  # type: BufferingIterator[str]
-    auto_correct_newlines = False
     first_line = text_stream.peek()
     if first_line is not None and not first_line.endswith("\n"):
         # Special-case: Single line files count as "last line without a newline" rather than
         # auto-correction.
-        auto_correct_newlines = text_stream.peek_at(2) is not None
+        if text_stream.peek_at(2) is not None:
+            # Correct the lines in the stream itself, so that look-ahead (e.g. when
+            # merging whitespace-only lines) sees the corrected lines as well.
+            text_stream = BufferingIterator(_with_newlines(text_stream))
 
     for no, line in enumerate(text_stream, start=1):
-        if auto_correct_newlines:
-            if line.endswith("\n"):
-                raise ValueError("Input is inconsistent with its line endings! Lines must "
-                                 "consistently be *with* or *without* line endings")
-            line += "\n"
-
         if not line.endswith("\n"):
             # We expect newlines at the end of each line except the last.
             if text_stream.peek() is not None:
@@ -336,7 +339,10 @@ def tokenize_deb822_file(sequence: Iterable[Union[str, bytes]]) -> Iterable[Deb8
 
             # If there are multiple whitespace-only lines, we combine them
             # into one token.
-            r = list(text_stream.takewhile(lambda x: _RE_WHITESPACE_LINE.match(x) is not None))
+            # (A final line without a newline cannot be merged as whitespace tokens
+            # containing a newline must end on one)
+            r = list(text_stream.takewhile(lambda x: x.endswith("\n")
+                                           and _RE_WHITESPACE_LINE.match(x) is not None))
             if r:
                 line += "".join(r)
 
